@@ -827,6 +827,21 @@ fn check_cold_twin(res: &mut HRes, live: &Arc<FixtureDatabase>, log: &[(String, 
             res.violate(class, format!("at step {}: the index differs from the cold twin's: {}", step, d));
         }
     }
+    // call hierarchy (handler level): outgoing calls of a few project fixtures, with their call-site ranges
+    {
+        let (ll, lc) = (super::observe::Lsp::new(live.clone(), root), super::observe::Lsp::new(cold.clone(), root));
+        let mut defs: Vec<_> = all_defs(&cold).into_iter().filter(|d| !d.is_third_party && !d.dependencies.is_empty()).collect();
+        defs.sort_by(|a, b| (&a.file_path, a.line).cmp(&(&b.file_path, b.line)));
+        for d in defs.iter().take(6) {
+            let fr = rel(root, &d.file_path);
+            let q = |l: &super::observe::Lsp| l.prepare(&fr, (d.line - 1) as u32, d.start_char as u32).and_then(|it| l.outgoing_with_ranges(&it));
+            let (x, y) = (q(&ll), q(&lc));
+            if x != y {
+                let library_file_indexed = live.file_definitions.iter().any(|e| rel(root, e.key()).contains("/otherlib/"));
+                res.violate(if library_file_indexed { "RC-OPENED-LIBRARY-FILE-LEAKS" } else { "warm-answer-differs" }, format!("at step {}: outgoing calls of {}@{}:{} warm={:?} cold={:?}", step, d.name, fr, d.line, x, y));
+            }
+        }
+    }
     let uncached_conftest = spec.files.iter().any(|f| f.rel.ends_with("conftest.py") && !live.file_cache.contains_key(&root.join(&f.rel)));
     let last_analysis_recorded_no_definition = log.last().map(|(_, t)| !t.contains("@pytest.fixture") && !t.contains("pytest.fixture()(")).unwrap_or(false);
     for (key, x, y) in sa.all_diffs(&sb) {
